@@ -553,7 +553,7 @@ type request struct {
 	Params any    `json:"params"`
 	Req    any    `json:"req"`
 	// batch: many (method, path, raw_path) probes of the router in one request
-	Items [][3]string `json:"items"`
+	Items [][]string `json:"items"`
 	// encode / decode
 	Type  string `json:"type"`
 	Value any    `json:"value"`
@@ -798,6 +798,66 @@ func handle(req *request) (ans map[string]any) {
 		}
 		ans["value"] = Canon(v)
 		jsonRoundTrip(s.api, t, v, ans)
+	case "randvalues":
+		// type-directed random values of a named type: Validate, encode, decode again
+		t, ok := s.api.Types[req.Type]
+		if !ok {
+			ans["error"] = "unknown type " + req.Type
+			return
+		}
+		var seed uint64
+		fmt.Sscan(req.Text, &seed)
+		r := &rnd{s: seed}
+		n := len(req.Items)
+		if n == 0 {
+			n = 10
+		}
+		var out []map[string]any
+		for i := 0; i < n; i++ {
+			one := map[string]any{}
+			func() {
+				defer func() {
+					if rec := recover(); rec != nil {
+						one["driver_panic"] = fmt.Sprint(rec)
+					}
+				}()
+				v := RandomValue(t, r, 3)
+				one["value"] = Canon(v)
+				jsonRoundTrip(s.api, t, v, one)
+			}()
+			out = append(out, one)
+		}
+		ans["results"] = out
+	case "decodebatch":
+		t, ok := s.api.Types[req.Type]
+		if !ok {
+			ans["error"] = "unknown type " + req.Type
+			return
+		}
+		var out []map[string]any
+		for _, it := range req.Items {
+			one := map[string]any{}
+			func() {
+				defer func() {
+					if rec := recover(); rec != nil {
+						one["driver_panic"] = fmt.Sprint(rec)
+					}
+				}()
+				jsonDecode(t, it[0], one)
+				if one["decoded"] != nil {
+					// re-encode the decoded value and decode once more
+					nv := reflect.New(t)
+					if um := nv.MethodByName("UnmarshalJSON"); um.IsValid() {
+						um.Call([]reflect.Value{reflect.ValueOf([]byte(it[0]))})
+						two := map[string]any{}
+						jsonRoundTrip(s.api, t, nv.Elem(), two)
+						one["again"] = two
+					}
+				}
+			}()
+			out = append(out, one)
+		}
+		ans["results"] = out
 	case "decode":
 		t, ok := s.api.Types[req.Type]
 		if !ok {
